@@ -216,6 +216,7 @@ def search(ctx):
     o = Oracle()
     r = rng("c03-search")
     g = B.Gen(r, exotic=False, pipe_both=False, p_ask=0.2, p_deny=0.12)
+    g.p_plain_list = 0.2
     n = ctx.scale(500, 15000)
     if ctx.broken:
         n *= 6
